@@ -695,20 +695,47 @@ def check_pos_wrap(chk, f, rule="WRAP"):
     for p in SP.paths(f["body"]):
         bounded = set()
 
-        def effects(e, cond_facts=()):
-            for x in astx.walk_expr(e):
-                n = arith_on(x)
-                if n and n not in bounded and not any(b[1] is x for b in bad):
-                    # `pos + k <= size()` style guards mention the sum inside a comparison of the same condition: still a wrap
-                    bad.append((n, x))
-                if x.get("k") == "bin" and x["op"] == "=":
-                    a0 = astx.strip_casts(x["l"])
+        def facts_of(c, taken):
+            """position parameters bounded when condition c evaluates to `taken`"""
+            out = set()
+            for op, l, r in _atoms(c, taken):
+                for a, b, o in ((l, r, op), (r, l, _FLIP[op])):
+                    a0 = astx.strip_casts(a)
                     if a0 is not None and a0.get("k") == "ref" and a0.get("n") in params:
-                        r0 = astx.strip_casts(x["r"])
-                        if r0 is not None and r0.get("k") == "call" and astx.callee(r0)[0] in ("min", "clamp"):
-                            bounded.add(a0["n"])
-                        elif r0 is not None and not any(y.get("k") == "ref" and y.get("n") == a0["n"] for y in astx.walk_expr(r0)):
-                            bounded.add(a0["n"])      # replaced by a value that does not depend on the raw argument
+                        btxt = astx.show(astx.strip_casts(b), 40)
+                        if o in ("<", "<=") or (o == "!=" and "npos" in btxt) or (o == "==" and "npos" not in btxt):
+                            out.add(a0["n"])
+            return out
+
+        def effects(e, local=frozenset()):
+            """walk e in evaluation order; `local` holds parameters bounded by an enclosing ?: / && / || of the same expression"""
+            if e is None or not isinstance(e, dict) or e.get("k") == "lambda":
+                return
+            k = e.get("k")
+            if k == "cond":
+                effects(e["c"], local)
+                effects(e["t"], local | facts_of(e["c"], True))
+                effects(e["f"], local | facts_of(e["c"], False))
+                return
+            if k == "bin" and e["op"] in ("&&", "||"):
+                effects(e["l"], local)
+                effects(e["r"], local | facts_of(e["l"], e["op"] == "&&"))
+                return
+            n = arith_on(e)
+            if n and n not in bounded and n not in local and not any(b[1] is e for b in bad):
+                bad.append((n, e))
+            if k == "bin" and e["op"] == "=":
+                a0 = astx.strip_casts(e["l"])
+                if a0 is not None and a0.get("k") == "ref" and a0.get("n") in params:
+                    effects(e["r"], local)
+                    r0 = astx.strip_casts(e["r"])
+                    if r0 is not None and r0.get("k") == "call" and astx.callee(r0)[0] in ("min", "clamp"):
+                        bounded.add(a0["n"])
+                    elif r0 is not None and not any(y.get("k") == "ref" and y.get("n") == a0["n"] for y in astx.walk_expr(r0)):
+                        bounded.add(a0["n"])      # replaced by a value that does not depend on the raw argument
+                    return
+            for c in astx.children(e):
+                effects(c, local)
         for ev in p:
             if ev[0] in ("cond", "backedge-cond"):
                 effects(ev[1])
